@@ -641,6 +641,11 @@ def main(tier):
             "second_solver": _second_solver(tier),
         }
     }
+    from vlib import auxb
+
+    extra_b, cov_b = auxb.run("harness.aux_c18_producer", tier)
+    extra += extra_b
+    cov.update(cov_b)
     return enginea.main(__name__, tier, extra_results=extra, extra_cov=cov)
 
 
@@ -727,6 +732,10 @@ def replay(path):
             return 1
         print("not reproduced on the whole function (step-level witness)")
         return 0
+    if v.get("producer_rr"):
+        from vlib import auxb
+
+        return auxb.replay("harness.aux_c18_producer", v)
     return enginea.replay_file(__name__, path)
 
 
